@@ -227,13 +227,41 @@ def _t6_tls(tree: Tree, r: RuleResult, kd) -> None:
         if n.kind == "stmt" and isinstance(n.ast, ast.Assign) and dotted(n.ast.targets[0]) == "mac":
             macs[src(n.ast.value)] = fact_holds(cfgp.facts_at(n.id), "mac_function == hashes.SHA384", True)
     r.ob(macs == {"hashes.SHA256": False, "hashes.SHA384": True}, Finding("T6", f"{KD}:prf_tls_12:hash-selection", f"TLS 1.2 PRF hash is SHA-384 iff the suite hash is SHA-384, else SHA-256; found {macs}", kd.line(g.node)))
-    # master secret for RSA lines with SHA-384 suites (F18)
+    # master secret for RSA lines: PRF hash of the suite (F18)
     r.instances += 1
     g = tree.func(KD, "gen_master_secret_tls_12")
     hs = {src(c.args[1]) for c in body_walk(g.node) if isinstance(c, ast.Call) and dotted(c.func) == "hmac.HMAC" and len(c.args) > 1}
-    takes_hash = any("mac" in p or "hash" in p for p in g.params)
-    r.ob(takes_hash or hs != {"hashes.SHA256()"}, Finding("T6", f"{KD}:gen_master_secret_tls_12:hash-fixed",
-                                                          "gen_master_secret_tls_12 hard-codes HMAC-SHA256; for `RSA` key-log lines with a SHA-384 suite the master secret must be derived with the SHA-384 PRF", kd.line(g.node)))
+    hparams = [p for p in g.params if "mac" in p or "hash" in p]
+    r.ob(bool(hparams) and hs != {"hashes.SHA256()"}, Finding("T6", f"{KD}:gen_master_secret_tls_12:hash-fixed",
+                                                               "gen_master_secret_tls_12 hard-codes HMAC-SHA256; for `RSA` key-log lines with a SHA-384 suite the master secret must be derived with the SHA-384 PRF", kd.line(g.node)))
+    if hparams and hs != {"hashes.SHA256()"}:
+        hp = hparams[0]
+        # same selection as prf_tls_12; every HMAC of the function uses the selected hash; the result is the first 48 bytes of P_hash
+        r.instances += 1
+        cfgm = cfg_of(g.node)
+        macs = {}
+        for n in cfgm.nodes:
+            if n.kind == "stmt" and isinstance(n.ast, ast.Assign) and dotted(n.ast.targets[0]) == "mac":
+                macs[src(n.ast.value)] = fact_holds(cfgm.facts_at(n.id), f"{hp} == hashes.SHA384", True)
+        direct = hs == {f"{hp}()"}
+        r.ob((macs == {"hashes.SHA256": False, "hashes.SHA384": True} and hs == {"mac()"}) or (direct and not macs),
+             Finding("T6", f"{KD}:gen_master_secret_tls_12:hash-selection",
+                     f"master secret PRF hash: SHA-384 iff the suite hash is SHA-384, else SHA-256, used by every HMAC of the function; found selection {macs}, HMAC hashes {sorted(hs)}", kd.line(g.node)))
+        r.instances += 1
+        ms = [src(s2.value) for s2 in body_walk(g.node) if isinstance(s2, ast.Assign) and dotted(s2.targets[0]) == "master_secret"]
+        rets = [src(n.value) for n in body_walk(g.node) if isinstance(n, ast.Return)]
+        r.ob(ms == ["(p1 + p2)[:48]"] and rets == ["master_secret"],
+             Finding("T6", f"{KD}:gen_master_secret_tls_12:length-48", f"the master secret is the first 48 bytes of P_hash = p1 ‖ p2 (a SHA-384 digest is 48 bytes: `p1 + p2[:16]` would be 64); found {ms} / return {rets}", kd.line(g.node)))
+        # wiring: the call site passes the suite's hash
+        r.instances += 1
+        gk = tree.func("session", "Session.generate_keys")
+        calls = [c for c in body_walk(gk.node) if isinstance(c, ast.Call) and (dotted(c.func) or "").endswith("gen_master_secret_tls_12")]
+        idx = g.params.index(hp)
+        okc = bool(calls)
+        for c in calls:
+            a = c.args[idx] if len(c.args) > idx else next((k.value for k in c.keywords if k.arg == hp), None)
+            okc = okc and a is not None and src(a) in ("cipher_suite['MAC']", 'cipher_suite["MAC"]')
+        r.ob(okc, Finding("T6", "session:Session.generate_keys:master-secret-hash", "generate_keys must hand the suite's hash (cipher_suite['MAC']) to gen_master_secret_tls_12; the default is SHA-256", gk.module.line(gk.node)))
 
 
 def _t6_quic(tree: Tree, r: RuleResult) -> None:
@@ -498,7 +526,8 @@ def rule_B4(tree: Tree) -> RuleResult:
                 from ..dataflow import reaching_definitions
                 rd = reaching_definitions(cfg)
                 defs = rd.get(nid, {}).get("master_secret", set())
-                ok = ok and len(defs) == 1 and src(cfg.nodes[next(iter(defs))].ast.value) == f"key_derivator.{gen}(bytes.fromhex(secret.value), client_random, server_random)"
+                extra = ", cipher_suite['MAC']" if gen == "gen_master_secret_tls_12" and len(tree.func(KD, gen).params) > 3 else ""
+                ok = ok and len(defs) == 1 and src(cfg.nodes[next(iter(defs))].ast.value) == f"key_derivator.{gen}(bytes.fromhex(secret.value), client_random, server_random{extra})"
         r.ob(ok, Finding("B4", f"session:Session.generate_keys:{fn}:{label or 'tls13'}",
                          f"generate_keys ({'/'.join(sorted(vers))}, {label or 'TLS 1.3 secrets'}): {fn}({', '.join(args)}) — expected the secret of that key-log line, the randoms in the callee's order "
                          f"{randoms.get(fn, '')} and (key_length, mac_length, 2·key+2·mac, bulk class, AEAD flag[, MAC hash])", m.line(c)))
